@@ -9,6 +9,7 @@
 
 mod avro;
 mod bn;
+mod data;
 mod drv;
 mod fxgraph;
 mod fxref;
